@@ -2,6 +2,9 @@
 
 UNITS = {
     'k_perm': dict(cpp='harness/k_perm.cpp'),
+    'k_version': dict(cpp='harness/k_version.cpp'),
+    'k_compare': dict(cpp='harness/k_compare.cpp'),
+    'k_value': dict(cpp='harness/k_value.cpp', cdefs=('YK_VAL_CAP=48',)),
 }
 
 
@@ -13,7 +16,29 @@ def H(unit, fn, what, bounds, tier='quick', **kw):
 
 FULL64 = 'full 64-bit word, all counts 0..15, all ranks; slot loops (15) fully unwound'
 
+W64 = 'every 64-bit version word (all flag combinations, both 29-bit counters incl. wrap-around)'
+
+TUP = 'all valid (slice,len) tuples: len 0..9, arbitrary bytes incl. 0x00/0xFF, zero padding above len'
+
 REGISTRY = {
+    'C15': [
+        H('k_value', 'H_val_create_roundtrip', 'value::create_value<false> -> get_body/get_len/get_gc_info/need_delete/delete_value + link_or_value::set_value', 'v_len 0..12 symbolic bytes, align 1..32'),
+        H('k_value', 'H_val_inline', 'create_value<true> / link_or_value with pointer-typed values', 'every 62-bit word'),
+        H('k_value', 'H_val_header_arith', 'header arithmetic of value for the documented range', 'v_len 0..8 MiB, align 1..4096'),
+    ],
+    'C18': [
+        H('k_compare', 'H_cmp_tuple_pair', 'key_tuple operator< > <= >= == != vs bytewise lexicographic reference (all pairs)', TUP),
+        H('k_compare', 'H_cmp_tuple_triple', 'transitivity on all triples; min()/max() sentinels', TUP),
+        H('k_compare', 'H_cmp_tuple_from_view', 'key_tuple(string_view): slice/len of the first layer, keys of 0..10 bytes', 'all byte strings of length 0..10'),
+    ],
+    'C17': [
+        H('k_version', 'H_ver_layout', 'the 8 public getters partition the 64-bit word; operator== is word equality', W64),
+        H('k_version', 'H_ver_unlock', 'node_version64::unlock vs the protocol, one CAS', W64),
+        H('k_version', 'H_ver_setters', 'atomic_set_{border,deleted,inserting_deleting,root,splitting}, atomic_inc_vinsert, lock: exactly their own field, one CAS', W64),
+        H('k_version', 'H_ver_stable', 'get_stable_version returns the word itself, only when clean', W64),
+        H('k_version', 'H_ver_stable_dirty_waits', 'exit test of get_stable_version is false on every locked/dirty word', W64),
+        H('k_version', 'H_ver_lock_cycle', 'lock; flag; unlock: stable versions equal iff nothing flagged', W64),
+    ],
     'C19': [
         H('k_perm', 'H_perm_insert', 'permutation::insert_rank + get_cnk/get_index_of_rank/get_lowest_key_pos vs positional spec', FULL64),
         H('k_perm', 'H_perm_delete', 'permutation::delete_rank vs positional spec', FULL64),
@@ -25,6 +50,21 @@ REGISTRY = {
 }
 
 LEVEL_TEXT = {
+    'C17': dict(text='The version-word protocol is decided for ALL 2^64 words through the public operations of the real node_version64 '
+                     '(unlock, lock, every atomic_set_*, atomic_inc_vinsert, get_stable_version): exact field effects incl. the 2^29 wrap, '
+                     'one CAS per mutator. The concurrent half (mutual exclusion, stable-version argument under interleavings) is decided by '
+                     'the sequentialized-schedule harnesses where registered.',
+                note='Trusted: clang++-14, ll2c (cross-validated on solver witnesses against the g++ build), CBMC+kissat. '
+                     'compare_exchange_weak modelled as strong; SC at hook granularity.', ref='DESIGN.md 4/C17', sched=True),
+    'C18': dict(text='Each comparison site is decided against ONE reference order (bytewise lexicographic, proper prefix first) on all valid '
+                     '(slice,length) tuples - pairs for agreement/totality, triples for transitivity - by bit-precise symbolic execution of the real code.',
+                note='Trusted: clang++-14, ll2c, CBMC+kissat. Valid tuple = len 0..9 with zero padding above len (the representation invariant of node keys).',
+                ref='DESIGN.md 4/C18'),
+    'C15': dict(text='Value round-trip is decided symbolically on the real value/link_or_value code: all lengths 0..12 with symbolic bytes and '
+                     'alignments 1..32 through the real allocation path, all lengths to 8 MiB / alignments to 4096 for the header arithmetic, '
+                     'every 62-bit inline word. Sized/aligned delete is checked against the allocation by a ghost allocator.',
+                note='Trusted: clang++-14, ll2c, CBMC+kissat. operator new(align) is assumed to return align-aligned memory (allocator contract); '
+                     'inline values with bit 62/63 set are outside the documented domain.', ref='DESIGN.md 4/C15', sched=True),
     'C19': dict(text='Every statement about the permutation word is decided for ALL 64-bit words that encode a valid ordering, all counts 0..15 and '
                      'all ranks by bit-precise symbolic execution of the real permutation members (no sampling); the loops have at most 15 iterations '
                      'and are fully unwound, so inside this unit the bound loses nothing.',
